@@ -29,9 +29,12 @@ using Abi = vm_abi_lp64u;
 #else
 using Abi = vm_abi_wasm32;
 #endif
-using Sbx = rlbox_vm_sandbox<Abi, 12>;
+#if !defined(REGION_BITS)
+#  define REGION_BITS 12
+#endif
+using Sbx = rlbox_vm_sandbox<Abi, REGION_BITS>;
 using RS = rlbox_sandbox<Sbx>;
-static const long SIZE = 4096;
+static const long SIZE = 1L << REGION_BITS;
 
 static tr::Out out;
 static RS* sb;
@@ -410,7 +413,7 @@ template<typename T>
 static void c05_pointee(std::mt19937_64& rng, bool thorough, bool dense)
 {
   const long s = GuestSize<T>::v;
-  std::vector<long> bases = { 0, SIZE - s, 2048, -1 };
+  std::vector<long> bases = { 0, SIZE - s, SIZE / 2, -1 };
   for (long base : bases) {
     incdec<T>(base);
     if (base >= 0) {
